@@ -45,8 +45,21 @@ def eval_expression(expr, context):
 
     # We search for all variable names starting with $, remove the $ and add
     # the value in the globals dict for eval
-    var_names = re.findall(r"\$([a-zA-Z_][a-zA-Z0-9_]*)", expr)
-    updated_expr = re.sub(r"\$([a-zA-Z_][a-zA-Z0-9_]*)", r"var_\1", expr)
+    # (the text of a string literal is not touched: "pay in $USD" stays as it is)
+    string_pattern = r'''("|')((?:\\.|(?!\1).)*?)\1'''
+    var_names = []
+
+    def _replace_variable(match):
+        var_name = match.group(3)
+        if var_name is None:
+            # A string literal
+            return match.group(0)
+        var_names.append(var_name)
+        return f"var_{var_name}"
+
+    updated_expr = re.sub(
+        string_pattern + r"|\$([a-zA-Z_][a-zA-Z0-9_]*)", _replace_variable, expr
+    )
     expr_locals = {}
 
     for var_name in var_names:
